@@ -79,11 +79,11 @@ TOLK = 256
 # helpers
 
 
-def _mk_x(n_or_sizes, xflat, cplx):
+def _mk_x(n_or_sizes, xflat, cplx, single=False):
     """flat complex vector -> scico array / BlockArray of the requested block sizes"""
     import scico.numpy as snp
 
-    dt = np.complex128 if cplx else np.float64
+    dt = G.dtype_of(cplx, single)
     xf = np.asarray(xflat, dtype=np.complex128)
     xf = xf if cplx else xf.real
     if isinstance(n_or_sizes, (list, tuple)):
@@ -129,6 +129,9 @@ def fn_oracle(ctx_seed=0):
         t, cplx = case["tree"], case["cplx"]
         sizes = case.get("sizes")
         n = case["n"]
+        single = bool(case.get("single"))
+        if single:
+            return None  # binary32 differences are too coarse; the binary64 streams carry the oracle
         f = G.build(t, n, cplx)
         xflat = G.dec(case["x"])
         x = _mk_x(sizes if sizes else n, xflat, cplx)
@@ -183,7 +186,7 @@ def fn_oracle(ctx_seed=0):
 # functional gradients
 
 
-def _fn_case(ctx, model, t, n, cplx, xflat, sizes=None, tag="fn", oracle=None):
+def _fn_case(ctx, model, t, n, cplx, xflat, sizes=None, tag="fn", oracle=None, single=False):
     """compare f(x), f.grad(x), jax.grad(f.__call__)(x), scico.value_and_grad on the real code with the model"""
     import jax
     import scico
@@ -192,12 +195,13 @@ def _fn_case(ctx, model, t, n, cplx, xflat, sizes=None, tag="fn", oracle=None):
     if mk == 0.0 or (0.0 < mk < 1e-6) or (0.0 < mb < 1e-6):
         ctx.count(f"{tag}:discarded-near-tie")
         return
-    case = {"tree": t, "n": n, "cplx": cplx, "x": G.enc(xflat), "sizes": sizes}
+    case = {"tree": t, "n": n, "cplx": cplx, "x": G.enc(xflat), "sizes": sizes, "single": single}
+    rt = 1e-4 if single else 1e-9
     try:
-        f = G.build(t, n, cplx)
+        f = G.build(t, n, cplx, single)
     except Exception as e:  # noqa: BLE001
         raise common.Infra(f"could not build {json.dumps(t)[:300]}: {e!r}") from e
-    x = _mk_x(sizes if sizes else n, xflat, cplx)
+    x = _mk_x(sizes if sizes else n, xflat, cplx, single)
     mt = G.to_model(t, n)
     got = model.call("fn", n=n, x=G.cv(xflat), f=mt)
     m_eval = common.b2f(got["eval"])
@@ -212,7 +216,7 @@ def _fn_case(ctx, model, t, n, cplx, xflat, sizes=None, tag="fn", oracle=None):
     if len(ks) > 1 or mb == 0.0:
         nontriv = (tag, tuple(ks), cplx, n, mb == 0.0)
     ctx.case({"tag": tag, "kinds": ks, "n": n, "cplx": cplx, "on_threshold": mb == 0.0}, nontriv)
-    ctx.count(f"{tag}:dtype={'c128' if cplx else 'f64'}")
+    ctx.count(f"{tag}:dtype={('c64' if cplx else 'f32') if single else ('c128' if cplx else 'f64')}")
     ctx.count(f"{tag}:n={n}")
     ctx.count(f"{tag}:depth-kinds={min(len(ks), 6)}")
     for kk in set(ks):
@@ -229,18 +233,18 @@ def _fn_case(ctx, model, t, n, cplx, xflat, sizes=None, tag="fn", oracle=None):
         return
     if not cplx and np.any(m_grad.imag != 0):
         raise common.Infra(f"model returned a non-real gradient for real data: {case}")
-    if not common.close(float(val), m_eval, TOLK):
+    if not common.close(float(val), m_eval, TOLK, rt):
         ctx.disagree("fn.eval", case, float(val), m_eval, oracle=orc)
         return
-    if not (common.allclose(gf.real, m_grad.real, TOLK) and common.allclose(gf.imag, m_grad.imag, TOLK)):
+    if not (common.allclose(gf.real, m_grad.real, TOLK, rt) and common.allclose(gf.imag, m_grad.imag, TOLK, rt)):
         ctx.disagree("fn.grad", case, G.enc(gf), G.enc(m_grad), oracle=orc)
         return
     jf = G.flat_blocks(jg)
-    if not (common.allclose(jf.real, m_jax.real, TOLK) and common.allclose(jf.imag, m_jax.imag, TOLK)):
+    if not (common.allclose(jf.real, m_jax.real, TOLK, rt) and common.allclose(jf.imag, m_jax.imag, TOLK, rt)):
         # the JAX contract transcription (not scico code): harness/model problem unless JAX changed
         raise common.Infra(f"jax.grad disagrees with the model's transcription of JAX's rules on {json.dumps(case)[:400]}")
     g2f = G.flat_blocks(g2)
-    if not (common.close(float(v2), m_eval, TOLK) and common.allclose(g2f.real, m_grad.real, TOLK) and common.allclose(g2f.imag, m_grad.imag, TOLK)):
+    if not (common.close(float(v2), m_eval, TOLK, rt) and common.allclose(g2f.real, m_grad.real, TOLK, rt) and common.allclose(g2f.imag, m_grad.imag, TOLK, rt)):
         ctx.disagree("fn.value_and_grad", case, {"value": float(v2), "grad": G.enc(g2f)}, {"value": m_eval, "grad": G.enc(m_grad)}, oracle=orc)
 
 
@@ -268,6 +272,72 @@ def stream_fn(ctx, model):
             ctx.count("fn:no-smooth-point")
             continue
         _fn_case(ctx, model, t, n, cplx, x)
+
+
+def stream_single(ctx, model):
+    """binary32 / complex64 data: the gradient keeps the dtype of the argument (tolerance 1e-4)"""
+    rng = ctx.rng
+    for _ in range(ctx.n(40, 300)):
+        cplx = bool(rng.random() < 0.5)
+        n = int(rng.integers(1, 5))
+        t = G.gen_tree(rng, n, cplx, int(rng.integers(0, 3)))
+        x = _gen_point(rng, t, n, cplx)
+        if x is None:
+            continue
+        mk, mb = G.margin(t, x)
+        if mb < 1e-3 or mk < 1e-2:
+            continue  # binary32 rounding could change the branch
+        _fn_case(ctx, model, t, n, cplx, x, tag="single", single=True)
+
+
+def stream_real_arg(ctx, model):
+    """real argument array, complex operators / data inside the loss: grad is real (= real part)"""
+    rng = ctx.rng
+    for _ in range(ctx.n(30, 300)):
+        n = int(rng.integers(1, 5))
+        t = G.gen_lossnode(rng, n, True, int(rng.integers(0, 3)))
+        if rng.random() < 0.4:
+            t = {"k": "mul", "c": G.dyscalar(rng), "side": "l", "f": t}
+        if rng.random() < 0.3:
+            t = {"k": "add", "f": t, "g": G.gen_leaf(rng, n)}
+        x = None
+        for _ in range(20):
+            xx = G.dy(rng, (n,), False, nz=True)
+            mk, mb = G.margin(t, xx)
+            if mk >= 1e-6 and (mb == 0.0 or mb >= 1e-6):
+                x = xx
+                break
+        if x is None:
+            continue
+        case = {"tree": t, "n": n, "cplx": True, "real_arg": True, "x": G.enc(x), "sizes": None}
+        f = G.build(t, n, True)
+        X = _mk_x(n, x, False)
+        got = model.call("fn", n=n, x=G.cv(x), f=G.to_model(t, n))
+        mg = G.from_cv(got["grad_real_arg"])
+        g = f.grad(X)
+        ks = G.kinds(t)
+        ctx.case({"tag": "real_arg", "kinds": ks, "n": n}, ("real_arg", tuple(ks), n))
+        ctx.count("real_arg:cases")
+
+        def orc(c, f=f, X=X, n=n):
+            gg = np.asarray(f.grad(X)).ravel()
+            for i in range(n):
+                e = np.zeros(n)
+                e[i] = 1.0
+                import scico.numpy as snp
+
+                fd = fd_directional(f, X, snp.array(e))
+                if abs(fd - float(np.real(gg[i]))) > 1e-5 * (1 + abs(fd) + abs(float(f(X)))):
+                    return {"x": c["x"], "direction": i, "grad_component": complex(gg[i]).real, "finite_difference": fd}
+            return None
+
+        if str(np.asarray(g).dtype) != "float64":
+            ctx.disagree("fn.real_arg.dtype", case, str(np.asarray(g).dtype), "float64", oracle=orc)
+            continue
+        if not common.close(float(f(X)), common.b2f(got["eval"]), TOLK):
+            ctx.disagree("fn.real_arg.eval", case, float(f(X)), common.b2f(got["eval"]), oracle=orc)
+            continue
+        _cmp_vec(ctx, "fn.real_arg.grad", case, g, mg, orc)
 
 
 def stream_blocks(ctx, model):
@@ -322,7 +392,9 @@ def stream_boundary(ctx, model):
             x2 = x2 + y
         _fn_case(ctx, model, t2, n, cplx, x2 if cplx else x2.real, tag="boundary")
         # zeros where the functional is smooth
-        for leaf in ({"k": "sqL2"}, {"k": "huber", "delta": delta, "sep": True}, {"k": "zero"}):
+        for leaf in ({"k": "sqL2"}, {"k": "huber", "delta": delta, "sep": True}, {"k": "zero"},
+                     {"k": "huber", "delta": delta, "sep": False},
+                     {"k": "mul", "c": 2.0, "side": "l", "f": {"k": "huber", "delta": delta, "sep": False}}):
             _fn_case(ctx, model, leaf, n, cplx, np.zeros(n), tag="boundary")
     # L21Norm on 2-D arrays (and a block array with l2_axis=None): groups from the axis
     import scico.numpy as snp
@@ -944,6 +1016,8 @@ def correspond(ctx, model):
     stream_boundary(ctx, model)
     stream_fn(ctx, model)
     stream_blocks(ctx, model)
+    stream_single(ctx, model)
+    stream_real_arg(ctx, model)
     stream_div_reject(ctx, model)
     stream_jac(ctx, model)
     stream_function(ctx, model)
@@ -961,8 +1035,8 @@ def findings(ctx, model):
     import scico.numpy as snp
     from scico import functional
 
-    # HuberNorm(separable=False) is differentiable at 0 (it is 0.5||x||^2 there, gradient 0) but the
-    # code differentiates through norm(x): 0 * (0/0)
+    # HuberNorm(separable=False) is differentiable at 0 (it is 0.5||x||^2 there, gradient 0); before
+    # /repo commit 7a3a18a the code differentiated through norm(x): 0 * (0/0) = NaN
     bad = []
     for dt in (np.float64, np.complex128):
         f = functional.HuberNorm(delta=1.0, separable=False)
@@ -973,10 +1047,6 @@ def findings(ctx, model):
         fd = (float(f(z + h * d)) - float(f(z - h * d))) / (2 * h)
         if np.any(np.isnan(g)) and abs(fd) < 1e-12:
             bad.append(str(np.dtype(dt)))
-        else:
-            safe = G.from_cv(model.call("huber_safe", n=3, x=G.cv(np.zeros(3)), delta=f2b(1.0)))
-            if not (common.allclose(g.real, safe.real) and common.allclose(np.imag(g), safe.imag)):
-                ctx.disagree("fn.huber_nonsep.zero", {"x": [0, 0, 0], "dtype": str(np.dtype(dt))}, G.enc(g), G.enc(safe))
     if bad:
         if ctx.is_known(HUBER0):
             ctx.known_finding(HUBER0, True, "dtypes " + ",".join(bad))
